@@ -10,6 +10,16 @@ Streams (DESIGN §6 C17):
   end-to-end    `unwrap_phase_2d_torch(w, "reliability-sorting", mask, wrap_around)` vs model fed with
                 the order the real sort produced; predicate on the real output
   bf-overlap    `unwrap_bf_overlap_phase_torch` (masked embedding, one/two passes) vs model
+  history       (growth 5, run FIRST) histories of calls on the module on grids of their own: rejected calls (malformed
+                mask shapes, unknown method, non-2-D phase, Poisson on a bounded grid) and calls made to fail part-way
+                (a tensor subclass whose k-th torch operation raises) between valid calls; every valid call is evaluated
+                like a stand-alone case and the whole history is compared with the model's `runSession`
+  uf-history    union calls on one UnionFindPhase object with indices past the end (rejected, object untouched)
+  bf-history    rejected calls of unwrap_bf_overlap_phase_torch between valid ones (value lengths, lazy `method`)
+Private helpers (leading underscore) and the internals of UnionFindPhase are resolved defensively: when one is renamed,
+inlined or merged the internal-stage comparison that needs it is skipped with a note in the evidence
+(`internal_stage_notes`) and the public-API comparison (`public_compare`: model with its own sort, modulo the freedom
+`argsort` ties leave) plus the property predicate decide.
 """
 import math
 from fractions import Fraction as Fr
@@ -17,21 +27,24 @@ from fractions import Fraction as Fr
 LEVEL = "proof"
 MANIFEST_ENTRY = {
     "category": "proof",
-    "text": "Lean 4 theorems over an executable model of the reliability-sorting unwrapper (edge construction for bounded/periodic grids with masks, union-find with offsets exactly as UnionFindPhase: no path compression, union by rank, the code's sign conventions; final offsets; mean removal; the bright-field embedding). The merge ORDER is an input of the model, so every theorem holds for every order the float reliability sort could produce. Proved for all sizes, masks, edge multigraphs (self-loops/duplicates included) and orders: termination of find (rank strictly increases to the root), the offset-consistency invariant (every stored offset is n(pixel)-n(parent) for any integer field the increments are differences of), Itoh => increments are wrap-count differences (over the reals, threshold pi), hence out - truth is constant on every connected component of the masked edge graph; out - input is in 2*pi*Z plus one constant for every input; smooth unwrapped input is returned up to one constant; same-tree edges are no-ops; the grid-level body of unwrap_bf_overlap_phase_torch (mask test, max-min>pi test, one or two passes) returns the truth up to a constant per connected overlap region in every branch; the model's edge graph is the 4-neighbour graph (bounded and periodic; the periodic edge list is characterised as a multiset for every HxW incl. H or W in {1,2}: self-loops / double edges exactly there); the input is taken raw: recovery holds for any representative of the truth whose neighbouring wrap counts are at most one apart (any 2*pi window such as [0,2pi), partially or fully unwrapped input), with a counterexample two cycles apart; the result is independent of the reliability (any comparison function used for the sort, any wrap function inside _pixel_reliability); the whole unwrap_bf_overlap_phase_torch incl. scatter phase_grid[bf_mask]=... and gather is correct entry by entry, for every number of images. _pixel_reliability (wrapped second differences, periodic rolls) and the sort are modelled exactly and the real edge ORDER is checked to be ascending in the model's exact rational reliabilities. The model is tied to the code on every run by exact differential streams (edge multisets, union-find arrays on the real edge order, final offsets, end-to-end fields, bf-overlap embedding) and the property predicate is evaluated on the real outputs with an independent connected-component / wrap-count oracle.",
-    "note": "Trusted: Lean kernel + propext/Classical.choice/Quot.sound; hand model validated by sampled correspondence only; torch indexing/roll/argsort/where semantics; IEEE rounding (inputs are dyadic multiples of pi kept >= 2^-6*pi away from the +-pi thresholds so no float comparison is decided by rounding; the real code keeps offsets in float32, measured deviation from the exact model is reported); argsort ties may come out in any order (the model's stable merge sort is one admissible outcome; the order stream uses phases on a pi/16 grid so that distinct reliabilities are far apart); the Poisson method is outside the claim; the caller's loop over images (direct_ptychography.py) is reproduced by the harness, not executed through DirectPtychography.",
+    "text": "Lean 4 theorems over an executable model of the reliability-sorting unwrapper (edge construction for bounded/periodic grids with masks, union-find with offsets exactly as UnionFindPhase: no path compression, union by rank, the code's sign conventions; final offsets; mean removal; the bright-field embedding) and of the PUBLIC entry points with their argument handling (dispatch on method, phi.shape unpacking, the mask entering through broadcasting and flat indexing, value lengths and the lazily validated method of unwrap_bf_overlap_phase_torch) including the exception type of every rejected call. The merge ORDER is an input of the model, so every theorem holds for every order the float reliability sort could produce. Proved for all sizes, masks, edge multigraphs (self-loops/duplicates included) and orders: termination of find (rank strictly increases to the root), the offset-consistency invariant (every stored offset is n(pixel)-n(parent) for any integer field the increments are differences of), Itoh => increments are wrap-count differences (over the reals, threshold pi), hence out - truth is constant on every connected component of the masked edge graph; out - input is in 2*pi*Z plus one constant for every input; smooth unwrapped input is returned up to one constant; same-tree edges are no-ops; the grid-level body of unwrap_bf_overlap_phase_torch (mask test, max-min>pi test, one or two passes) returns the truth up to a constant per connected overlap region in every branch; the model's edge graph is the 4-neighbour graph (bounded and periodic; the periodic edge list is characterised as a multiset for every HxW incl. H or W in {1,2}: self-loops / double edges exactly there); the input is taken raw: recovery holds for any representative of the truth whose neighbouring wrap counts are at most one apart (any 2*pi window such as [0,2pi), partially or fully unwrapped input), with a counterexample two cycles apart; the result is independent of the reliability (any comparison function used for the sort, any wrap function inside _pixel_reliability); the whole unwrap_bf_overlap_phase_torch incl. scatter phase_grid[bf_mask]=... and gather is correct entry by entry, for every number of images. Growth 5, over HISTORIES including calls that raise: a well-formed call (2-D phase, no mask or a mask of the grid's shape) never raises, never diverges and is correct (call_valid_correct: total correctness of the public entry point); in ANY history of calls on the module, valid and rejected ones in any order, every well-formed call returns what it returns alone, i.e. the truth up to a constant per region (session_exception_safe, session_pointwise); the rejected calls by exception type (rejected_calls: unknown method / non-2-D phase ValueError, Poisson on a bounded grid NotImplementedError, non-broadcastable mask RuntimeError, a mask that broadcasts but has fewer elements than the grid IndexError, never silently broadcast); after ANY history of union calls on one UnionFindPhase object, calls with an index past the end included, exactly those raise, they leave the object untouched (state = state after the accepted calls alone), the forest/termination/offset invariants hold (uf_history_invariant); unwrap_bf_overlap_phase_torch with right-length values is the modelled function, an unknown method either raises or (no pass needed) returns exactly what the valid method returns, wrong-length values are a RuntimeError (bf_args_spec). _pixel_reliability (wrapped second differences, periodic rolls) and the sort are modelled exactly and the real edge ORDER is checked to be ascending in the model's exact rational reliabilities. The model is tied to the code on every run by exact differential streams (edge multisets, union-find final offsets on the real edge order, end-to-end fields, bf-overlap embedding, call histories with rejected and fault-injected calls run before anything else has called the module, union-find and bf histories) and the property predicate is evaluated on the real outputs of every valid call, inside and outside histories, with an independent connected-component / wrap-count oracle.",
+    "note": "Trusted: Lean kernel + propext/Classical.choice/Quot.sound; hand model validated by sampled correspondence only; torch indexing/roll/argsort/where/broadcasting semantics; IEEE rounding (inputs are dyadic multiples of pi kept >= 2^-6*pi away from the +-pi thresholds so no float comparison is decided by rounding; the real code keeps offsets in float32, measured deviation from the exact model is reported); argsort ties may come out in any order (the model's stable merge sort is one admissible outcome; the order stream uses phases on a pi/16 grid so that distinct reliabilities are far apart); the Poisson method is outside the claim (only its dispatch and its explicit NotImplementedError are modelled); the caller's loop over images (direct_ptychography.py) is reproduced by the harness, not executed through DirectPtychography. Measured only: that the module really keeps no state between calls (the model says so by construction; the history stream compares every call of real histories with it); exception types of malformed arguments whose rejection is incidental (torch indexing / broadcasting / unpacking) are recorded and noted, not alarmed on - only the explicit raises (unknown method, Poisson bounded) are compared strictly; torch view semantics for negative pixel indices in UnionFindPhase (never produced by the unwrapper) are outside the model. Private helpers and UnionFindPhase internals are resolved defensively: if renamed / inlined / merged the internal-stage streams are skipped with a note (coverage.internal_stage_notes) and the public-API comparison decides; parent/rank/offset arrays are compared as an internal representation (a difference with equal final offsets is noted, not alarmed on).",
     "technique": "Lean 4 proof (forest/rank invariant, offset telescoping, Itoh lemma over R) + exact model-vs-implementation correspondence",
 }
 RULE = ("generated phase fields (ramps, quadratics, Gaussian bumps, band-limited random, periodic, raw non-smooth, "
         "already-unwrapped, stored in [-pi,pi), [0,2pi), a shifted window or partially unwrapped) on grids up to 24x24 (medium 40..64 per side, "
         "float16 up to 60x60, long thin up to 3x900, seam-only-connected bands on periodic non-square grids with H or W in {1,2}) with masks (none, rectangle, annulus, multi-component, blobs with holes, "
         "sparse, border-touching) and wrap_around on/off, float16/32/64; a case is one call of the real unwrapper "
-        "(or one union-find run / one _build_edges call / one reliability+order comparison / one stack of bf images); distinct non-trivial = distinct (stream, field kind, mask kind, "
+        "(or one union-find run / one _build_edges call / one reliability+order comparison / one stack of bf images / one rejected call inside a history; histories: 96+ per run on grids of their own, reject kind x wrap_around x template enumerated, each with 4..7 valid calls; input classes per call: memory layout, mask dtype and truthy-value class, autograd leaf/non-leaf, method literal/default/run-time string, wrap_around bool/int/numpy bool); distinct non-trivial = distinct (stream, field kind, mask kind, "
         "wrap, dtype, H, W, #mask components bucket, wrap-count range) among cases whose field really wraps "
         "(the true wrap count varies inside a connected mask component) or, for union-find runs, that perform at least 3 merges")
-TRUSTED = ["torch tensor indexing / roll / where / argsort / stack semantics (exercised, not verified)",
+TRUSTED = ["torch tensor indexing / roll / where / argsort / stack / broadcasting semantics (exercised, not verified)",
+           "fault injection through a torch.Tensor subclass (__torch_function__ raising at the k-th operation): assumes the subclass is otherwise transparent",
            "IEEE rounding: inputs are dyadic multiples of pi kept >= 2^-6*pi from the +-pi thresholds; offsets are float32 in the code, exact integers in the model",
            "_pixel_reliability only determines the merge order (theorems: any order); it is modelled exactly and compared (values to tolerance, order exactly) on a pi/16 phase grid"]
-ASSUMPTIONS = ["grids <= 24x24 in the correspondence, plus a few 40..64 x 40..64 grids per run, a few float16 fields on 46..60 x 46..60 grids and long thin grids (1..3 x 300..900 and transposed, wrap counts past 127/255; thorough: one 1 x 74000 ramp past 32767) (theorems: all sizes)",
+ASSUMPTIONS = ["histories: grids 2..13 x 2..13 with H != W, one grid shape per history (132 shapes, then reused); a history is replayed from its first step",
+               "malformed arguments are outside the documented domain: how they are rejected is recorded (input_distribution history:rejected-call:*), compared with the model, and a difference is a note, not an alarm; every valid call after them is checked at full strength",
+               "grids <= 24x24 in the correspondence, plus a few 40..64 x 40..64 grids per run, a few float16 fields on 46..60 x 46..60 grids and long thin grids (1..3 x 300..900 and transposed, wrap counts past 127/255; thorough: one 1 x 74000 ramp past 32767) (theorems: all sizes)",
                "Itoh is required on the edges actually used (inside the mask, including periodic seam edges when wrap_around=True); values outside the mask are arbitrary",
                "tolerance on assembled outputs: 5e-4*max(1,max|model|) (the code forces float32 offsets: 2*pi*incs is rounded to float32 even for float64 input); all wrap-count comparisons are exact integers"]
 EXPLANATION = ("Theorems in Props/C17.lean are about Model/Unwrap.lean (run at Rat, units of pi, by the driver; proved at R with "
@@ -158,7 +171,28 @@ def call_classes(case, helpers=False):
     case["mask_dtype"] = "bool" if helpers else r.choice(MASK_DTYPES)   # the private helpers index with the mask: bool only
     case["call"] = r.choice(["keyword", "positional"])
     case["grad"] = "none" if helpers else r.choice(["none", "none", "none", "leaf", "nonleaf"])
+    # the same logical arguments in other Python forms: `method` left to its default / given as a string object built at
+    # run time (equal to, not identical with, the literal); wrap_around as bool / int 0,1 / numpy bool
+    case["method_form"] = "literal" if helpers else r.choice(["literal", "literal", "default", "built"])
+    case["wrap_form"] = "bool" if helpers else r.choice(["bool", "bool", "int", "npbool"])
     return case
+
+
+def wrap_value(wrap, form):
+    import numpy as np
+    return {"int": int(wrap), "npbool": np.bool_(wrap)}.get(form, bool(wrap))
+
+
+def call_unwrap(iu, case, phi, mask, wrap):
+    """unwrap_phase_2d_torch in the call form of the case (positional / keyword; method literal, defaulted or built)"""
+    wv = wrap_value(wrap, case.get("wrap_form", "bool"))
+    mf = case.get("method_form", "literal")
+    meth = "reliability-sorting" if mf != "built" else "".join(["reliability", "-", "sorting"])
+    if case["call"] == "positional" and mf != "default":
+        return iu.unwrap_phase_2d_torch(phi, meth, mask, wv)
+    if mf == "default":
+        return iu.unwrap_phase_2d_torch(phi, mask=mask, wrap_around=wv)
+    return iu.unwrap_phase_2d_torch(phi, method=meth, mask=mask, wrap_around=wv)
 
 
 def lay(t, layout, fill=7):
@@ -752,6 +786,8 @@ def eval_unwrap_case(ctx, drv, case, report_case=None, tensors=None, stream="end
     ctx.dist[f"call:form:{case['call']}"] += 1
     ctx.dist[f"call:phi-layout:{case['layout']}"] += 1
     ctx.dist[f"call:phi-autograd:{case.get('grad', 'none')}"] += 1
+    ctx.dist[f"call:method-form:{case.get('method_form', 'literal')}"] += 1
+    ctx.dist[f"call:wrap_around-form:{case.get('wrap_form', 'bool')}"] += 1
     if maskl is not None:
         ctx.dist[f"call:mask-layout:{case['mask_layout']}"] += 1
         ctx.dist[f"call:mask-dtype:{case['mask_dtype']}"] += 1
@@ -760,10 +796,7 @@ def eval_unwrap_case(ctx, drv, case, report_case=None, tensors=None, stream="end
     rec = Recorder(iu, ctx)
     try:
         with rec:
-            if case["call"] == "positional":
-                out_t = iu.unwrap_phase_2d_torch(phi_in, "reliability-sorting", mask, wrap)
-            else:
-                out_t = iu.unwrap_phase_2d_torch(phi_in, method="reliability-sorting", mask=mask, wrap_around=wrap)
+            out_t = call_unwrap(iu, case, phi_in, mask, wrap)
         out = [float(v) for v in out_t.detach().cpu().double().flatten().tolist()]
         err = None
         if tuple(out_t.shape) != (H, W):
@@ -784,7 +817,7 @@ def eval_unwrap_case(ctx, drv, case, report_case=None, tensors=None, stream="end
     if wraps:
         ctx.mark((stream, case["kind"], case["mkind"], wrap, case["dtype"], H, W, min(ncomp, 4), min(nrange, 6)))
     small_case = report_case or {k: case[k] for k in ("stream", "H", "W", "wrap", "mask", "mode", "dtype", "qn", "kind", "mkind", "outside", "c",
-                                                      "layout", "mask_layout", "mask_dtype", "call", "grad") if k in case}
+                                                      "layout", "mask_layout", "mask_dtype", "call", "grad", "method_form", "wrap_form") if k in case}
     if err is not None:
         pred_fail(ctx, "unwrap-raises", f"unwrap_phase_2d_torch raised {err}", small_case, observed=err, required="a result")
         return None
@@ -796,7 +829,7 @@ def eval_unwrap_case(ctx, drv, case, report_case=None, tensors=None, stream="end
     base = {"H": H, "W": W, "phi": wr, "mask": maskl, "wrap": wrap}
     if not rec.complete(1):
         # internal stages not observable (private helpers renamed / inlined): the public API decides
-        if N <= 6000:
+        if N <= 1500:       # the model's own sort is slow on larger grids; there the predicate above decides alone
             public_compare(ctx, drv, stream, case, small_case, H, W, wrap, w, maskl, out, lab, smooth, TOL[case["dtype"]])
         return {"out": out, "order": None, "w": w}
     ctx.dist[f"{stream}:internal-stages-observed"] += 1
@@ -1991,11 +2024,11 @@ def run(ctx):
     try:
         # FIRST: histories with rejected calls on grids of their own — before any other stream has called the module, so
         # that a rejected call really is the first call of the process on its grid (module-level state, if any, starts empty)
-        for h in range(ctx.n(96, 600)):
+        for h in range(ctx.n(96, 300)):
             eval_history_case(ctx, drv, gen_history(ctx.rng.fork(12_000_000 + h), h))
-        for h in range(ctx.n(30, 400)):
+        for h in range(ctx.n(30, 120)):
             eval_bf_history_case(ctx, drv, gen_bf_history(ctx.rng.fork(13_000_000 + h)))
-        for h in range(ctx.n(150, 3000)):
+        for h in range(ctx.n(150, 1200)):
             eval_uf_hist_case(ctx, drv, gen_uf_hist_case(ctx.rng.fork(14_000_000 + h)))
         # method dispatch of unwrap_phase_2d_torch (the Poisson method is outside the claim; only the dispatch is looked at)
         iu = _iu()
